@@ -241,6 +241,17 @@ def run_validate(chk, scenarios, label, shards=6, featurize=None, on_result=None
                 continue
         if on_result is not None:
             on_result(scn, res)
+        for note in res.get("notes", []):
+            if note["kind"] == "stored_value_replaced":
+                chk.report({"kind": "stored_value_replaced", "label": label},
+                           f"{label}: a machine was created over a model whose stored state is a member of a mixed-in enum equal to "
+                           f"the state's value; the stored object was replaced (now {note['now']})", {"scenario": scn})
+                break
+            if note["kind"] == "foreign_default":
+                chk.report({"kind": "foreign_default", "label": label},
+                           f"{label}: callback {note['c']} was called with the default value of ANOTHER function's parameter "
+                           f"({note['got']!r}): what a parameter defaults to belongs to the function object", {"scenario": scn})
+                break
         batch.append(res)
         kept.append(scn)
     if not batch:
